@@ -19,6 +19,8 @@ CLAIMS = {
          "Lean 4 proofs (inductive chain relations, exact site characterisation) lifted by the walker theorem + differential correspondence + executable MUST/MUST-NOT oracle", "§7 C07, §8.3"),
  "C06": ("Lean 4 theorems payableFunction_exact, privateConstant_exact, privateVars_exact, privateFunc_exact, constructorOrder_exact: for every tree a location is reported iff it is the report location of a declaration of the documented shape in a contract of the file; constructorOrder_local + mem_constructorOrderScan: the verdict on a constructor depends only on the function definitions that precede it in its own contract (a plain function before it), never on other contracts, libraries, interfaces or free functions. Model = code observed on generated multi-contract files (free functions, >256 functions, members in all orders); the oracle recomputes each expected set from the direct members of every contract and compares it with the implementation's output.",
          "Lean 4 iff-characterisation proofs (list-scan invariant for constructor_order) + differential correspondence + executable expected-set oracle", "§7 C06, §8.2"),
+ "C09": ("Lean 4 theorems: versionOfValue_plain (for EVERY operator spelling without digits and every triple of digit strings below 2^31 — not only the 6 x 246 table — the modelled regex scan extracts exactly (major, minor, patch)); verLt_iff (the gates compare lexicographically), gate_lt_mono / gate_ge_mono (monotone in v), safeMath_gate / safeMath_never_both / stringErrors_gate / shortRevert_gate (each detector is active exactly on its side of 0.8.0 resp. 0.8.4), no_version_silent, versionOf_insert + other_pragma_noSolidity (inserting unrelated pragmas anywhere among the top-level items leaves the version unchanged). Model = code observed on the version table, exhaustively on short strings, and on generated files x version pool x pragma placements; the oracle recomputes the expected set from the single full version.",
+         "Lean 4 proofs (regex scan on plain versions by induction; lexicographic gates; walker composition over top-level items) + exhaustive small-scope and table correspondence + executable expected-set oracle", "§7 C09, §8.5"),
 }
 
 def main():
